@@ -37,7 +37,16 @@ Theorem C12_size_bounds : forall t,
   (1 <= size_leaves t <= size_tree t /\ 1 <= size_depth t <= size_tree t)%nat.
 Proof. exact size_bounds. Qed.
 
+(* the reported sorts = the sorts of symbols, applied functions' signatures, bound variables,
+   constants and array-value index sorts occurring in the term, closed under component sorts *)
+Theorem C12_types_walk_def : forall t s, In s (types_walk t) <-> sort_occurs s t.
+Proof. exact types_walk_def. Qed.
+Theorem C12_get_types_def : forall t s,
+  In s (get_types t) <-> exists u, sort_occurs u t /\ In s (subtypes u).
+Proof. exact get_types_def. Qed.
+
 Print Assumptions C12_fv_def.
+Print Assumptions C12_get_types_def.
 Print Assumptions C12_coincidence.
 Print Assumptions C12_atoms_truth_functional.
 Print Assumptions C12_qf_def.
